@@ -77,9 +77,17 @@ def overlap_spec(a, b):
     return ("k", n - len(kernel))
 
 
+COV = None  # harness.c11.LineCov over inner_product / fidelity / canonical_form / inverse_circuit of the implementation (set in run())
+
+
 def impl_fidelity(a, b):
     from graphiq.backends.stabilizer.functions import metric as sfm
 
+    if COV is not None and a.n_qubits <= 8:
+        with COV:
+            f = sfm.fidelity(a.copy(), b.copy())
+        COV.res.branch(COV.labels())
+        return f
     return sfm.fidelity(a.copy(), b.copy())
 
 
@@ -211,6 +219,14 @@ def run(ctx, budget=1.0):
     drv = Driver()
     rng = ctx.rng
     pending = []
+    global COV
+    from graphiq.backends.stabilizer.functions import metric as sfm_cov
+    from graphiq.backends.stabilizer.functions import stabilizer as sfs_cov
+    from harness.c11 import LineCov
+
+    # line coverage of the real functions (sys.settrace, no hook in /repo): which branches the generated pairs reach
+    COV = LineCov(sfm_cov.fidelity, sfm_cov.inner_product, sfs_cov.canonical_form, sfs_cov.inverse_circuit)
+    COV.res = res
     # corpus: the witness of the repaired D42 against itself (re-gauged); must pass like any other pair
     from graphiq.backends.stabilizer.functions.rep_conversion import clifford_from_stabilizer  # noqa: F401
     from harness.c11 import stab_of_args
@@ -261,6 +277,11 @@ def run(ctx, budget=1.0):
     res.exhaustive = True
     res.notes.append("exhaustive over all ordered pairs of stabilizer states for n<=2; sampled for n=3 and above")
     res.extra["driver_lines"] = drv.n_lines
+    unreached = COV.unreached()
+    res.extra["unreached_lines"] = unreached
+    res.notes.append("line coverage of the real fidelity/inner_product/canonical_form/inverse_circuit (sys.settrace, n<=8): per-line hit counts in "
+                     "`branches`; " + ("every line was reached" if not unreached else "lines no generated pair reached: " + " | ".join(unreached)))
+    COV = None
     drv.close()
     return res
 
